@@ -253,8 +253,10 @@ impl Exec {
         ev["h"] = op["h"].clone();
       }
       "Sweep" => {
+        // 2147483647 stands for "the largest work unit there is" (usize::MAX; TLC's integers are 32-bit,
+        // and any unit beyond the table means the same to the specification)
         let w = op["w"].as_u64().unwrap() as usize;
-        self.heap.sweep(w);
+        self.heap.sweep(if w == 2147483647 { usize::MAX } else { w });
         ev["w"] = json!(w);
       }
       "CreateCounter" => {
@@ -396,7 +398,7 @@ fn random_op(x: &Exec, rng: &mut Rng, longs: &[&str], shorts: &[&str]) -> Value 
       }
     } else if k < 94 {
       let len = x.table_len();
-      let ws = [1, 2, 3, len.max(1), len + 5, 10_000, len.saturating_sub(1).max(1)];
+      let ws = [1, 2, 3, len.max(1), len + 5, 10_000, len.saturating_sub(1).max(1), 2147483647];
       return json!({"op": "Sweep", "w": ws[rng.below(ws.len())]});
     } else if k < 96 {
       if growable {
